@@ -60,6 +60,22 @@ def main(tier='quick'):
         for mid in mids[:6]:
             plan = [('store', rng.choice([7, 9]), rng.choice(K.MIDS), 1) for _ in range(3)]
             add(K.run_get_scu(rng, mid, 1, plan, [0, 'EHE', 0xB000], pol), {'svc': 'qr_get_scu', 'mid': mid, 'plan': plan, 'policy': pol})
+    # a request for one find class arriving on a context negotiated for another find class: the responses repeat the
+    # REQUEST's class
+    for mid in mids[:4]:
+        for nm in (0, 2):
+            ms = [(0xFF00, 10)] * nm
+            add(K.run_find_scp(rng, 'eager', mid, 3, ms, ctx_sop='1.2.840.10008.5.1.4.1.2.2.1'),
+                {'svc': 'qr_find_scp', 'mid': mid, 'ctx': 3, 'matches': ms, 'policy': 'eager', 'context_negotiated_for': 'study root'})
+    # one service object, two associations, overlapping requests with different message ids
+    for kind in ('naction', 'nevent'):
+        for pair in ((0, 65535), (7, 300), (65535, 1)):
+            trs, errs = K.run_commit_concurrent(rng, pair, kind)
+            for e in errs:
+                v.report({'site': 'sopclass.StorageCommitment', 'clause': 'raised'}, 'overlapping %s requests %r: %s' % (kind, pair, e), replay={'svc': kind, 'pair': list(pair)})
+            for tr in trs:
+                traces.append(tr)
+                metas.append({'svc': 'commitment-' + kind, 'overlapping_message_ids': list(pair), 'policy': 'eager'})
     # the handler loop itself: several requests of one association over contexts that share an SOP class
     n_loops = 0
     for li in range(40 if tier == 'quick' else 600):
